@@ -696,7 +696,7 @@ func c14NTSKE(p *ana.Prog, r *ana.Result) {
 		if !isCmp || c.Op != token.EQL || !pos {
 			return
 		}
-		if !strings.HasSuffix(ana.AccessPath(c.X), "msg.Type") {
+		if !isRecordHdrField(c.X, "Type") {
 			return
 		}
 		if k, ok := ana.ConstInt(c.Y); ok {
